@@ -240,7 +240,9 @@ def run(tier, seed, ck: Check):
         cases.append({"fault": "none", "optsA": [OPTS_A[first]], "abspath": False, "remote": True})
     cases.append({"fault": "missing", "optsA": [OPTS_A[0]], "abspath": False, "remote": True})
     if not big:
-        cases = [c for i, c in enumerate(cases) if i % 4 == seed % 4 or (c["fault"] != "none" and len(c["optsA"]) == 1 and not c["abspath"] and c["optsA"][0] == {}) or c.get("remote")]
+        import zlib
+        cases = [c for c in cases if zlib.crc32(json.dumps(c, sort_keys=True).encode()) % 4 == seed % 4
+                 or (len(c["optsA"]) == 1 and c["optsA"][0] == {} and (c["fault"] == "none" or not c["abspath"])) or c.get("remote")]
     for c, bad in zip(cases, pool.pmap(evaluate, cases, chunksize=1)):
         ck.count()
         ck.nontrivial_case(json.dumps(c, sort_keys=True))
